@@ -452,7 +452,8 @@ def run_dtype_gate(spec, tier, mg):
     res = common.new_result()
     findings = []
     n = 0
-    bad_inputs = [np.array([1 + 2j]), np.array(["a"]), np.array([object()], dtype=object), np.array([np.datetime64("2020-01-01")])]
+    bad_inputs = [np.array([1 + 2j]), np.array(["a"]), np.array([object()], dtype=object), np.array([np.datetime64("2020-01-01")]),
+                  np.array([np.timedelta64(1, "s")]), np.array(np.timedelta64(3)), np.array([b"ab"]), np.array([(1, 2.0)], dtype=[("a", "i4"), ("b", "f8")])]
     for a in bad_inputs:
         for mk in (mg.tensor, mg.Tensor, mg.astensor):
             n += 1
@@ -463,7 +464,7 @@ def run_dtype_gate(spec, tier, mg):
                 pass
             except Exception as e:
                 findings.append("%s(dtype %s) raised %s, not TypeError" % (mk.__name__, a.dtype, type(e).__name__))
-    for dt in (complex, np.complex64, "U3"):
+    for dt in (complex, np.complex64, "U3", "m8[s]", "M8[D]", "S2"):
         for f in (lambda: mg.zeros((2,), dtype=dt), lambda: mg.tensor([1.0], dtype=dt), lambda: mg.tensor([1.0]).astype(dt)):
             n += 1
             try:
